@@ -25,6 +25,15 @@ type EmitSite struct {
 	InGo     bool                         // the enclosing function is only spawned by `go`
 	Bind     map[*ssa.Parameter]ssa.Value // literal built by a constructor helper: its parameters at this call site
 	Via      *ssa.Call                    // the constructor call (nil for literals written at the send)
+	Decided  ssa.Instruction              // where the kind is decided when one literal gets its Frame in the arms of an if/switch (nil: at the send)
+}
+
+// At: the instruction whose dominating branch conditions select this frame kind.
+func (e *EmitSite) At() ssa.Instruction {
+	if e.Decided != nil {
+		return e.Decided
+	}
+	return e.Send
 }
 
 func (w *World) pbNamed(t types.Type) (string, bool) {
@@ -93,7 +102,7 @@ func (w *World) EmitSites() []*EmitSite {
 			}
 			st := storesInto(a)
 			es.StreamID = st["StreamId"]
-			if fv, ok := st["Frame"]; ok {
+			fill := func(es *EmitSite, fv ssa.Value) {
 				if wa, ok := stripConv(fv).(*ssa.Alloc); ok {
 					es.Wrapper = wa
 					if k, ok := w.pbNamed(wa.Type()); ok {
@@ -117,6 +126,32 @@ func (w *World) EmitSites() []*EmitSite {
 						es.Send = c
 					}
 				}
+			}
+			// one literal whose Frame is assigned in the arms of an if/switch (`msg := &ServerToClient{StreamId: id}; if first
+			// { msg.Frame = … } else { msg.Frame = … }; Send(msg)`): one emit site per arm
+			var frameStores []*ssa.Store
+			for _, r := range *a.Referrers() {
+				if fa, ok := r.(*ssa.FieldAddr); ok && fa.X == ssa.Value(a) && fieldName(a.Type(), fa.Field) == "Frame" {
+					for _, r2 := range *fa.Referrers() {
+						if s2, ok := r2.(*ssa.Store); ok && s2.Addr == ssa.Value(fa) {
+							frameStores = append(frameStores, s2)
+						}
+					}
+				}
+			}
+			if len(frameStores) > 1 {
+				sort.Slice(frameStores, func(i, j int) bool { return frameStores[i].Pos() < frameStores[j].Pos() })
+				for _, fs := range frameStores {
+					cp := *es
+					cp.Payload = map[string]ssa.Value{}
+					cp.Decided = fs
+					fill(&cp, fs.Val)
+					out = append(out, &cp)
+				}
+				return
+			}
+			if fv, ok := st["Frame"]; ok {
+				fill(es, fv)
 			}
 			out = append(out, es)
 		})
